@@ -32,6 +32,13 @@ def run(tier):
     for rep in range(1 if tier == "quick" else 25):
         for kind in sorted(set(netgen.MULTI_KINDS)):
             jobs.append({"family": "multi_subgraph:" + kind, "seed": "c02m-%d-%d" % (vlib.seed(), rep), "args": compiles.config_args(rm), "capture": True})
+    # constants shared between operators (one filter, separate biases -> stand-alone scale tensors) with enough weights
+    # for several encoded ranges: two cores, depth slices
+    for rep in range(4 if tier == "quick" else 120):
+        acc = ["ethos-u65-512", "ethos-u65-512", "ethos-u55-128", "ethos-u65-256"][rep % 4]
+        extra = ["--arena-cache-size", "20000"] if rep % 4 == 2 else []
+        jobs.append({"family": "siamese:big", "seed": "c02s-%d-%d" % (vlib.seed(), rep), "args": ["--accelerator-config", acc] + extra, "capture": True})
+    jobs = compiles.corpus_jobs() + jobs
     results = compiles.run_all(jobs, timeout=900)
     programs = 0
     ops_checked = 0
